@@ -16,6 +16,17 @@ TRUST = ("Trusted: Coq 8.16.1 kernel + vm_compute (no native_compute); no axioms
 
 # id -> (level text, technique, note)
 CLAIMS = {
+ 'C01': ("kernel-checked over the model of _archunkgenerator/asarray/_fillgenerator, which uses the "
+         "fit_frames/iterindices GENERATED from the source: for every input length and every chunklen "
+         "(None, <= 0, > len included) the chunk plan tiles the input exactly (archunks_seq, archunks_darr, "
+         "fillchunks_concat), the created directory and handle are related to the NumPy reference (dtype "
+         "with byte order, shape, every byte), the result is independent of chunklen, and inputs of an "
+         "unsupported element type yield TypeError with nothing created. Tie: the model is evaluated "
+         "inside coqc on the same creation cases (13 types x byte orders x layouts x ranks x input forms "
+         "x dtype x chunklen x fill) and compared with handle state and every file; the NumPy reference "
+         "is compared bit-exactly as well.",
+         "Coq proof over source-translated chunk arithmetic + executable creation model, in-Coq differential evaluation",
+         "6.C01"),
  'C02': ("Codec.v states the documented format as a reader sharing nothing with the operation model; "
          "kernel-checked: encode/decode round trip for every element-list length, type and byte order "
          "(C02_codec_roundtrip), and for EVERY history of operations from a state related to the NumPy "
